@@ -53,6 +53,45 @@ def parseLayer (j : Json) : R (Arr2 (List Int)) := do
   let arr := data.toArray
   pure { rows := rows, cols := cols, get := fun r c => (arr[r * cols + c]?).getD [] }
 
+/-- one element's data for a layer: `rows × cols` integers -/
+def parseLayer1 (j : Json) : R (Arr2 Int) := do
+  let rows ← getNat j "rows"
+  let cols ← getNat j "cols"
+  let data ← getList asInt j "data"
+  if data.length ≠ rows * cols then throw "layer data/shape mismatch"
+  let arr := data.toArray
+  pure { rows := rows, cols := cols, get := fun r c => (arr[r * cols + c]?).getD 0 }
+
+def parseStrPair (j : Json) : R (String × String) := do
+  match (← asList asStr j) with
+  | [a, b] => pure (a, b)
+  | _ => throw "pair of strings expected"
+
+def parseNatPair (j : Json) : R (Nat × Nat) := do
+  match (← asList asNat j) with
+  | [a, b] => pure (a, b)
+  | _ => throw "pair of naturals expected"
+
+/-- a change of the stack an `SRRLaser` object holds (`Pew.Srr.StackOp`) -/
+def parseStackOp (j : Json) : R StackOp := do
+  match (← getStr j "op") with
+  | "rename" => pure (.rename (← getList parseStrPair j "map"))
+  | "remove" => pure (.remove (← getList asStr j "names"))
+  | "add" => pure (.add (← getStr j "name") (← getStr j "dtype") (← getList parseLayer1 j "data"))
+  | "set_data" => pure (.setData { fields := ← getList parseStrPair j "fields", layers := ← getList parseLayer j "layers" })
+  | "append" => pure (.append (← fld j "layer" >>= parseLayer))
+  | "pop" => pure .pop
+  | "add_to" => pure (.addTo (← getNat j "layer") (← getList parseNatPair j "cells") (← getInt j "delta"))
+  | o => throw s!"unknown stack op {o}"
+
+def jFields (fs : List (String × String)) : Json := jList (fun (f : String × String) => jList jStr [f.1, f.2]) fs
+
+/-- a layer as the harness sends it: shape and the pixels row by row, `n` values per pixel -/
+def jLayer (n : Nat) (l : Arr2 (List Int)) : Json :=
+  jObj [("rows", jNat l.rows), ("cols", jNat l.cols),
+        ("data", jList (fun k => jList (fun e => jInt ((l.get (k / l.cols) (k % l.cols)).getD e 0)) (List.range n))
+                   (List.range (l.rows * l.cols)))]
+
 def jArr3 (a : Arr3 (List Int)) : Json :=
   jObj [("shape", jList jNat [a.rows, a.cols, a.depth]),
         ("data", jList (fun r => jList (fun c => jList (fun i => jList jInt (a.get r c i)) (List.range a.depth))
@@ -169,9 +208,13 @@ def handle (op : String) (req : Json) : R Json := do
     let h ← fld req "cfg" >>= parseSrrHist
     let c := h.cfg
     let m := c.magnification
-    let nel ← getNat req "nel"
-    let layers ← getList parseLayer req "layers"
+    -- the stack the object holds now: the one it was built with, then the changes made to it
+    let stack0 : Stack := { fields := ← getList parseStrPair req "fields", layers := ← getList parseLayer req "layers" }
+    let sops ← getList parseStackOp req "stack_ops"
     let given ← getList parseRec req "arrays"
+    let some stack := stack0.applyAll sops | pure (jObj [("stack_ok", jBool false)])
+    let nel := stack.fields.length
+    let layers := stack.layers
     let z : List Int := List.replicate nel 0
     let mag := magInt m
     let p := subpixelsPerPixel c.size m
@@ -217,12 +260,27 @@ def handle (op : String) (req : Json) : R Json := do
       | some l => jArr2 (jList jInt) (layerSpec l i)
       | none => Json.null)
     pure (jObj ([
+      ("stack_ok", jBool true), ("fields", jFields stack.fields), ("stack", jList (jLayer nel) layers),
       ("config", jCfg c), ("crossed", jBool crossed),
       ("valid", jOpt jBool valid), ("valid_spec", jBool vspec),
       ("model", model), ("spec", jArr3 specArr), ("spec_inrange", jBool inrange),
       ("flat_model", Json.arr flatModel.toArray), ("flat_spec", Json.arr flatSpecs.toArray),
       ("layer_model", Json.arr (layerRead false).toArray), ("layer_model_flat", Json.arr (layerRead true).toArray),
       ("layer_spec", Json.arr layerSpecs.toArray)] ++ jWarm h ++ recReply c given))
+  | "c09.stack" =>
+    -- the changes alone: fields and layer shapes after every prefix of `stack_ops` (`null` from the first change on
+    -- that is outside the model: pewlib raises or leaves the object half changed)
+    let stack0 : Stack := { fields := ← getList parseStrPair req "fields", layers := ← getList parseLayer req "layers" }
+    let sops ← getList parseStackOp req "stack_ops"
+    let mut cur : Option Stack := some stack0
+    let mut out : Array Json := #[]
+    for op in sops do
+      cur := cur.bind (fun s => s.apply op)
+      out := out.push (match cur with
+        | some s => jObj [("fields", jFields s.fields),
+                          ("shapes", jList (fun (l : Arr2 (List Int)) => jList jNat [l.rows, l.cols]) s.layers)]
+        | none => Json.null)
+    pure (jObj [("ok", jBool cur.isSome), ("states", Json.arr out)])
   | "c09.config" =>
     -- the configuration alone (no stack): `sets` is a history of offset lists assigned one after the other
     let h ← fld req "cfg" >>= parseSrrHist
